@@ -2,6 +2,8 @@ pub mod c01;
 pub mod c05race;
 pub mod c09;
 pub mod c10;
+pub mod c12;
+pub mod c17;
 pub mod c18;
 pub mod c19;
 pub mod common;
@@ -20,6 +22,8 @@ pub fn by_id(id: &str) -> Option<Box<dyn Check>> {
         "C09" => Some(Box::new(c09::C09)),
         "C19" => Some(Box::new(c19::C19)),
         "C18" => Some(Box::new(c18::C18)),
+        "C17" => Some(Box::new(c17::C17)),
+        "C12" => Some(Box::new(c12::C12)),
         "C10" => Some(Box::new(c10::C10)),
         "C11" => Some(Box::new(histchecks::HistCheck { prop: "C11" })),
         "C08" => Some(Box::new(histchecks::HistCheck { prop: "C08" })),
